@@ -16,7 +16,7 @@
    code by the correspondence run (harness/src/bin/defer.rs vs
    ocaml/dispatch_driver.ml over the whole matrix).  No proofs in this file. *)
 From Coq Require Import NArith ZArith List Bool.
-From GV Require Import Gen.Instr Gen.Exec Gen.Dispatch.
+From GV Require Import Gen.Instr Gen.Exec Gen.Truth Gen.Dispatch.
 Import ListNotations.
 
 (* ---------------------------------------------------------------- inputs *)
@@ -134,18 +134,30 @@ Inductive lookup : Type :=
 
 Definition in_types (t : data_type) (l : list data_type) : bool := existsb (data_type_eqb t) l.
 
+Definition has_helper (h : helper) (l : list helper) : bool :=
+  existsb (fun x => match h, x with
+                    | H_get_access_addr, H_get_access_addr | H_access_with_integer, H_access_with_integer
+                    | H_access_with_symbol, H_access_with_symbol | H_narrow_range, H_narrow_range => true
+                    | _, _ => false end) l.
+
+(* An arm of a helper.  Whether it produces the unsupported-types code is read from the
+   FEATURE the translator found in the current body text ([raises]), not from its name; the
+   names only refine what else is known (data dependence, slices of the wrong kind). *)
+
 (* access_with_integer(this, index, value) on a value operand *)
 Definition lookup_integer (v : operand) : lookup :=
   match arm_of F_access_with_integer [o_ty v] with
   | Some (_, a) =>
       match arm_body a with
-      | BNamed A_awi_pair _ _ | BNamed A_awi_range _ _ | BNamed A_awi_concatenation _ _ => LkMaybe false
-      | BNamed A_awi_list _ _ | BNamed A_awi_char_list _ _ | BNamed A_awi_byte_list _ _
-      | BNamed A_awi_symbol_list _ _ => LkMaybe true
-      | BNamed A_awi_slice _ _ =>
-          if in_types (o_sub v) [T_List; T_CharList; T_ByteList; T_Concatenation] then LkMaybe true else LkOther
-      | BNamed A_unsupported _ _ => LkUnsupported
-      | _ => LkOther
+      | BNamed n _ _ raises =>
+          if raises then LkUnsupported else
+          match n with
+          | A_awi_pair | A_awi_range | A_awi_concatenation => LkMaybe false
+          | A_awi_slice =>
+              if in_types (o_sub v) [T_List; T_CharList; T_ByteList; T_Concatenation] then LkMaybe true else LkOther
+          | _ => LkMaybe true
+          end
+      | BDefer _ _ _ _ _ => LkOther
       end
   | None => LkOther
   end.
@@ -155,25 +167,39 @@ Definition lookup_symbol (v : operand) : lookup :=
   match arm_of F_access_with_symbol [o_ty v] with
   | Some (_, a) =>
       match arm_body a with
-      | BNamed A_aws_pair _ _ | BNamed A_aws_concatenation _ _ => LkMaybe false
-      | BNamed A_aws_list _ _ => LkMaybe true
-      | BNamed A_aws_slice _ _ =>
-          if in_types (o_sub v) [T_List; T_Concatenation] then LkMaybe true else LkOther
-      | BNamed A_unsupported _ _ => LkUnsupported
-      | _ => LkOther
+      | BNamed n _ _ raises =>
+          if raises then LkUnsupported else
+          match n with
+          | A_aws_pair | A_aws_concatenation => LkMaybe false
+          | A_aws_slice => if in_types (o_sub v) [T_List; T_Concatenation] then LkMaybe true else LkOther
+          | _ => LkMaybe true
+          end
+      | BDefer _ _ _ _ _ => LkOther
       end
   | None => LkOther
   end.
 
-(* get_access_addr(this, right, left) *)
+Definition worse (a b : lookup) : lookup :=
+  match a, b with
+  | LkUnsupported, _ | _, LkUnsupported => LkUnsupported
+  | LkOther, _ | _, LkOther => LkOther
+  | LkMaybe x, LkMaybe y => LkMaybe (x || y)
+  end.
+
+(* get_access_addr(this, right, left): which helper the arm for `right`'s type goes on to *)
 Definition lookup_access (right left : operand) : lookup :=
   match arm_of F_get_access_addr [o_ty right] with
   | Some (_, a) =>
       match arm_body a with
-      | BNamed A_gaa_number _ _ => lookup_integer left
-      | BNamed A_gaa_symbol _ _ => lookup_symbol left
-      | BNamed A_unsupported _ _ => LkUnsupported
-      | _ => LkOther
+      | BNamed _ hs _ raises =>
+          if raises then LkUnsupported else
+          match has_helper H_access_with_integer hs, has_helper H_access_with_symbol hs with
+          | true, false => lookup_integer left
+          | false, true => lookup_symbol left
+          | true, true => worse (lookup_integer left) (lookup_symbol left)
+          | false, false => LkMaybe true
+          end
+      | BDefer _ _ _ _ _ => LkOther
       end
   | None => LkOther
   end.
@@ -236,11 +262,27 @@ Definition right_of (st : list slot) : operand :=
   | _ => plain T_Unit
   end.
 
+(* a listed arm nothing more is known about than its features: it pushes one value; the helpers
+   it calls are followed on the operands the known call sites pass them *)
+Definition generic_outcome (helpers : list helper) (absorbs : bool) (l r : operand) (np : nat) : outcome :=
+  match has_helper H_get_access_addr helpers, has_helper H_access_with_integer helpers,
+        has_helper H_access_with_symbol helpers with
+  | false, false, false => ok true np TopAny
+  | true, false, false => push_lookup np absorbs (lookup_access r l)
+  | false, true, false => push_lookup np absorbs (lookup_integer l)
+  | false, false, true => push_lookup np absorbs (lookup_symbol l)
+  | _, _, _ =>
+      if absorbs then ok true np TopAny
+      else {| res := ROkOrUnsupported; data_dep := true; calls := []; pops := np; pushes := 1; top_is := TopAny; jumps := false; frames := 0 |}
+  end.
+
 Definition named_outcome (n : arm_name) (helpers : list helper) (absorbs : bool)
     (st : list slot) (np : nat) (seen : list data_type) : outcome :=
   let l := left_of st in
   let r := right_of st in
   match n with
+  | A_other => generic_outcome helpers absorbs l r np
+  | A_unsupported => failed RErrUnsupported np
   (* arithmetic / bitwise: Some(result) => number, None => unit *)
   | A_unary_number | A_binary_number => ok false np (TopOneOf [T_Number; T_Unit])
   (* access / apply: symbol merging is the data object's business *)
@@ -308,7 +350,16 @@ Definition run_dispatch (f : disp_fn) (ic : option instruction) (pre_unit : bool
                   defer_outcome h np {| c_op := i; c_lty := tl; c_la := al; c_rty := tr; c_ra := ar |}
               | _, _, _, _, _ => untyped
               end
-          | BNamed n helpers absorbs => named_outcome n helpers absorbs st np seen
+          | BNamed n helpers absorbs raises =>
+              let o := named_outcome n helpers absorbs st np seen in
+              (* a body that produces the unsupported-types code itself may let it out *)
+              if raises && negb absorbs then
+                match res o with
+                | ROk => {| res := ROkOrUnsupported; data_dep := data_dep o; calls := calls o; pops := pops o;
+                            pushes := pushes o; top_is := top_is o; jumps := jumps o; frames := frames o |}
+                | _ => o
+                end
+              else o
           end
       end
   end.
@@ -318,9 +369,9 @@ Definition compare_outcome (l r : operand) : outcome :=
   match arm_of F_perform_comparison [o_ty l; o_ty r] with
   | Some (_, a) =>
       match arm_body a with
-      | BNamed A_cmp_false _ _ => ok false 2 (TopBool false)
-      | BNamed A_cmp_number _ _ => ok false 2 (TopOneOf [T_True; T_False; T_Unit])
-      | BNamed _ _ _ => ok true 2 (TopOneOf [T_True; T_False; T_Unit])
+      | BNamed A_cmp_false _ _ _ => ok false 2 (TopBool false)
+      | BNamed A_cmp_number _ _ _ => ok false 2 (TopOneOf [T_True; T_False; T_Unit])
+      | BNamed _ _ _ _ => ok true 2 (TopOneOf [T_True; T_False; T_Unit])
       | BDefer _ _ _ _ _ => failed RErrOther 2
       end
   | None => failed RErrOther 2
@@ -377,6 +428,7 @@ Definition step (i : instruction) (l : operand) (r : option operand) (h : host_m
       | ShLogic o => logic_outcome o l r
       | ShJumpIf t => match r with None => jump_outcome t l | Some _ => untyped end
       | ShPlain p => plain_outcome p l r
+      | ShUnknown => untyped
       end
   end.
 
@@ -401,6 +453,7 @@ Definition arity (i : instruction) : option nat :=
       | ShLogic _ => Some 1%nat
       | ShJumpIf _ => Some 1%nat
       | ShPlain p => plain_arity p
+      | ShUnknown => None
       end
   end.
 
